@@ -176,6 +176,42 @@ def rand_ali(rng, empty_ok=False):
     return out[:n]
 
 
+# Stored dtypes of the corpora the commands read (round h): an alignment / token file is any integer tensor whose
+# values fit, a feature file any floating tensor.  The models are over integers / rationals, so the stored dtype
+# must not matter; a narrow dtype combined with MORE frames than it can count (LONG_T) is where it would.
+ALI_DTYPES = ["uint8", "int8", "int16", "int32", "int64"]
+REF_DTYPES = ["int32", "int64"]
+FEAT_DTYPES = ["float16", "float32", "float64"]
+LONG_T = [130, 260, 300]
+INT_RANGE = {"uint8": (0, 255), "int8": (-128, 127), "int16": (-2 ** 15, 2 ** 15 - 1),
+             "int32": (-2 ** 31, 2 ** 31 - 1), "int64": (-2 ** 63, 2 ** 63 - 1)}
+
+
+DTYPE_KINDS = ("alidir", "refdir", "subset", "datadir", "moments", "mvn")
+
+
+def pick_dtypes(rng):
+    return {"ali": rng.choice(ALI_DTYPES), "ref": rng.choice(REF_DTYPES), "feat": rng.choice(FEAT_DTYPES)}
+
+
+def dtype_vals(rng, dtype):
+    """Labels a tensor of that dtype can hold: small ones or (30%) the ends of its range."""
+    lo, hi = INT_RANGE[dtype]
+    if rng.random() < 0.3:
+        return [lo, lo + 1, hi - 1, hi, 0]
+    return [v for v in [-1, 0, 1, 2, 3] if lo <= v <= hi]
+
+
+def long_ali(rng, dtype, T=None):
+    """An alignment of 130 / 260 / 300 frames (more than int8 / uint8 count) in runs of 1..60 frames."""
+    T = T or rng.choice(LONG_T)
+    vals, out = dtype_vals(rng, dtype), []
+    while len(out) < T:
+        v = rng.choice([x for x in vals if not out or x != out[-1]] or vals)
+        out += [v] * rng.randint(1, 60)
+    return out[:T]
+
+
 def close(a, b, tol):
     return abs(a - b) <= tol
 
@@ -205,7 +241,11 @@ class C17(PropertyCheck):
             "moments (ali/ref length moments), mvn (grouped MVN statistics); textgrid also with a tier "
             "without intervals (10%) and frame shifts that are inexact in float32 (12%: 11.61, 11.6, 0.1, "
             "1000/44100 ms); --utt-list with an utterance listed twice (30% of the list cases); every kind includes the empty "
-            "corpus; ctm times on a millisecond or a dyadic (1/1024 s) grid; worker runs (extra_checks): "
+            "corpus; stored dtypes (50% of the alidir/refdir/subset/datadir/moments/mvn cases): ali uint8/int8/int16/"
+            "int32/int64 with labels over that dtype's range incl. its ends, ref int32/int64, feat float16/32/64 "
+            "(mvn: float32/64), combined with alignments of 130/260/300 frames in runs of 1..60, token segments of "
+            "40..130 and 127/128/130/255/256 frames and feature files of 130/260/300 frames (more than int8 / uint8 "
+            "count); ctm times on a millisecond or a dyadic (1/1024 s) grid; worker runs (extra_checks): "
             "9 pipelines (ali<->token, trn, ctm, textgrid, subset incl. --utt-list(-file) and the three copy modes, "
             "ali/ref moments, mvn, chunk; subset and chunk on inconsistent data directories) x corpora "
             "of 0/1/3 utterances x workers {0,1,2} x chunk {1,2}, fork sweep + spawn sample; thorough adds "
@@ -252,6 +292,13 @@ class C17(PropertyCheck):
             for g in gens:
                 c = g(rng, tier)
                 if c is not None:
+                    if c["kind"] in DTYPE_KINDS and "dtypes" not in c and rng.random() < 0.5:
+                        c["dtypes"] = pick_dtypes(rng)
+                        if c["kind"] == "mvn" and c["dtypes"]["feat"] == "float16":
+                            # the statistics are accumulated in the stored dtype: float16 sums of squares round
+                            # (134.0625 -> 134.0), a precision question outside this property; float32 -> float64
+                            # is an exact widening of the same values
+                            c["dtypes"]["feat"] = "float64"
                     # which optional flags each command of the case leaves out when their value is the documented
                     # default (about a quarter of the cases pass everything explicitly, as all of them used to)
                     if rng.random() < 0.75:
@@ -264,25 +311,37 @@ class C17(PropertyCheck):
         p, s = pick_affixes(rng)
         utts = rand_utts(rng, rng.choice([0, 1, 2, 3, 4]), lo=0 if (rng.random() < 0.2 and p) else 1)
         with_empty = rng.random() < 0.08
-        files = [[p + u + s, rand_ali(rng, with_empty)] for u in utts]
+        dts = pick_dtypes(rng) if rng.random() < 0.3 else None
+        if dts:
+            # stored dtype chosen first: labels over ITS range, and most utterances longer than int8 / uint8 count
+            files = [[p + u + s, long_ali(rng, dts["ali"]) if rng.random() < 0.7 else
+                      [rng.choice(dtype_vals(rng, dts["ali"])) for _ in range(rng.randint(1, 5))]] for u in utts]
+        else:
+            files = [[p + u + s, rand_ali(rng, with_empty)] for u in utts]
         taken = {f[0] for f in files}
         files = [f for i, f in enumerate(files) if f[0] and f[0] not in {g[0] for g in files[:i]}]
         for j in junk_names(rng, p, s, taken):
             files.append([j, rand_ali(rng)])
         rng.shuffle(files)
-        return {"kind": "alidir", "prefix": p, "suffix": s, "files": files}
+        case = {"kind": "alidir", "prefix": p, "suffix": s, "files": files}
+        if dts:
+            case["dtypes"] = dts
+        return case
 
     def gen_refdir(self, rng, tier):
         p, s = pick_affixes(rng)
         utts = rand_utts(rng, rng.choice([0, 1, 2, 3]))
         bad_at = rng.randrange(len(utts)) if (utts and rng.random() < 0.3) else None
         use_feat = rng.random() < 0.3
+        long_ = rng.random() < 0.25      # utterances of ~130..400 frames (segments of up to 130)
         files = []
         for i, u in enumerate(utts):
             R = rng.randint(1, 4)
             segs, t = [], 0
             for r in range(R):
                 ln = rng.choice([1, 1, 2, 3, 0]) if rng.random() < 0.25 else rng.randint(1, 3)
+                if long_ and ln:
+                    ln = rng.choice([127, 128, 130, 255, 256]) if rng.random() < 0.3 else rng.randint(40, 130)
                 tok = rng.randint(0, 2) if not segs or rng.random() < 0.3 else (segs[-1][0] + 1 + rng.randint(0, 1)) % 4
                 segs.append([tok, t, t + ln])
                 t += ln
@@ -540,7 +599,8 @@ class C17(PropertyCheck):
         get-torch-spect-data-dir-info) on a tree that need not be consistent: see gen_subset."""
         p, s = pick_affixes(rng, 0.5)
         utts = rand_utts(rng, rng.choice([0, 1, 2, 3, 4]))
-        feat = [[p + u + s, rng.randint(1, 3)] for u in utts]
+        long_ = rng.random() < 0.2
+        feat = [[p + u + s, rng.choice(LONG_T) if long_ and rng.random() < 0.7 else rng.randint(1, 3)] for u in utts]
         taken = {f[0] for f in feat}
         T_of = dict((n, T) for n, T in feat)
         for j in junk_names(rng, p, s, taken):
@@ -578,15 +638,17 @@ class C17(PropertyCheck):
         p, s = pick_affixes(rng, 0.5)
         which = rng.choice(["ali", "ref"])
         utts = rand_utts(rng, rng.choice([0, 1, 2, 3, 4]))
+        dts = pick_dtypes(rng) if rng.random() < 0.25 else None     # with long utterances / far boundaries
         files = []
         for u in utts:
             if which == "ali":
-                files.append([p + u + s, rand_ali(rng, rng.random() < 0.1)])
+                files.append([p + u + s, long_ali(rng, dts["ali"]) if dts and rng.random() < 0.7 else
+                              rand_ali(rng, rng.random() < 0.1)])
             else:
                 segs = []
                 for _ in range(rng.randint(0, 4)):
-                    a = rng.randint(0, 6)
-                    b = a + rng.randint(0, 4)
+                    a = rng.randint(0, 6) * (40 if dts else 1)
+                    b = a + rng.randint(0, 4) * (33 if dts else 1)
                     if rng.random() < 0.15:
                         a, b = rng.choice([(-1, -1), (b + 1, a), (-1, 3)])
                     segs.append([rng.randint(0, 3), a, b])
@@ -594,10 +656,13 @@ class C17(PropertyCheck):
         taken = {f[0] for f in files}
         for j in junk_names(rng, p, s, taken):
             files.append([j, [1, 1] if which == "ali" else [[1, 0, 50]]])
-        return {"kind": "moments", "which": which, "prefix": p, "suffix": s, "files": files,
+        case = {"kind": "moments", "which": which, "prefix": p, "suffix": s, "files": files,
                 "excl": rng.sample([-1, 0, 1, 2, 3, -100, 2 ** 31], rng.choice([0, 0, 1, 2])),
                 "bessel": rng.random() < 0.4, "std": rng.random() < 0.3,
                 "precision": rng.choice([3, 3, 1, 6])}
+        if dts:
+            case["dtypes"] = dts
+        return case
 
     def gen_mvn(self, rng, tier):
         p, s = pick_affixes(rng, 0.5)
@@ -638,12 +703,28 @@ class C17(PropertyCheck):
                     f"{name}:{f}" for f in gone)
         return K.call(name, argv)
 
+    @staticmethod
+    def _save(case, role, t, path):
+        """Store t as the dtype the case asks for that kind of file (role ali / ref / feat); an integer dtype
+        only if every value fits (else the file stays int64, as before)."""
+        import torch
+        name = (case.get("dtypes") or {}).get(role)
+        if name:
+            dt = getattr(torch, name)
+            if role == "feat":
+                t = t.to(dt)
+            else:
+                lo, hi = INT_RANGE[name]
+                if t.numel() == 0 or (lo <= int(t.min()) and int(t.max()) <= hi):
+                    t = t.to(dt)
+        K.save(t, path)
+
     def impl_alidir(self, case):
         with K.tmpdir() as d:
             ali = os.path.join(d, "ali")
             os.makedirs(ali)
             for name, a in case["files"]:
-                K.save(K.long_tensor(a), os.path.join(ali, name))
+                self._save(case, "ali", K.long_tensor(a), os.path.join(ali, name))
             ref, ali2 = os.path.join(d, "ref"), os.path.join(d, "ali2")
             na = K.name_args(case["prefix"], case["suffix"])
             r1 = self._call(case, "torch_ali_data_dir_to_torch_token_data_dir", [ali, ref] + na + ["--num-workers", "0"])
@@ -670,11 +751,11 @@ class C17(PropertyCheck):
                     t = K.long_tensor([x[:2] for x in segs], (len(segs), 2))
                 else:
                     t = K.long_tensor(segs, (len(segs), 3))
-                K.save(t, os.path.join(ref, name))
+                self._save(case, "ref", t, os.path.join(ref, name))
                 if T is not None:
-                    K.save(torch.zeros(T, 2), os.path.join(feat, name))
+                    self._save(case, "feat", torch.zeros(T, 2), os.path.join(feat, name))
             for name in case.get("feat_extra", []):
-                K.save(torch.zeros(7, 2), os.path.join(feat, name))
+                self._save(case, "feat", torch.zeros(7, 2), os.path.join(feat, name))
             ali, ref2 = os.path.join(d, "ali"), os.path.join(d, "ref2")
             na = K.name_args(case["prefix"], case["suffix"])
             fa = ["--feat-dir", feat] if case["use_feat"] else []
@@ -918,12 +999,12 @@ class C17(PropertyCheck):
             k = 0
             for name, T in case["feat"]:
                 k += 1
-                K.save(torch.full((T, 2), float(k)), os.path.join(featd, name))
+                self._save(case, "feat", torch.full((T, 2), float(k)), os.path.join(featd, name))
             for sub, names in case["others"].items():
                 os.makedirs(os.path.join(src, sd[sub]))
                 for name in names:
                     k += 1
-                    K.save(K.long_tensor([k, k]), os.path.join(src, sd[sub], name))
+                    self._save(case, sub, K.long_tensor([k, k]), os.path.join(src, sd[sub], name))
             for sub, name in case.get("unrelated", []):
                 k += 1
                 os.makedirs(os.path.join(src, sub), exist_ok=True)
@@ -994,7 +1075,7 @@ class C17(PropertyCheck):
             T_of = {}
             for k, (name, T) in enumerate(case["feat"]):
                 T_of[name] = T
-                K.save(torch.full((T, 2), float(k)), os.path.join(src, sd["feat"], name))
+                self._save(case, "feat", torch.full((T, 2), float(k)), os.path.join(src, sd["feat"], name))
             for sub, files in case["others"].items():
                 os.makedirs(os.path.join(src, sd[sub]))
                 for name, n in files:
@@ -1003,7 +1084,7 @@ class C17(PropertyCheck):
                     else:
                         T = T_of.get(name, 2)
                         t = K.long_tensor([[1, 0, T]] if n == 1 else [[1, 0, T // 2], [2, T // 2, T]], (n, 3))
-                    K.save(t, os.path.join(src, sd[sub], name))
+                    self._save(case, sub, t, os.path.join(src, sd[sub], name))
             for sub, name in case.get("unrelated", []):
                 os.makedirs(os.path.join(src, sub), exist_ok=True)
                 K.save(K.long_tensor([5, 5, 5]), os.path.join(src, sub, name))
@@ -1039,7 +1120,7 @@ class C17(PropertyCheck):
             os.makedirs(dd)
             for name, x in case["files"]:
                 t = K.long_tensor(x) if case["which"] == "ali" else K.long_tensor(x, (len(x), 3))
-                K.save(t, os.path.join(dd, name))
+                self._save(case, case["which"], t, os.path.join(dd, name))
             out = os.path.join(d, "out.txt")
             argv = [dd, out] + K.name_args(case["prefix"], case["suffix"]) + ["--num-workers", "0",
                                                                                "--precision", str(case["precision"])]
@@ -1063,7 +1144,7 @@ class C17(PropertyCheck):
             dd = os.path.join(d, "feat")
             os.makedirs(dd)
             for name, rows in case["files"] + case["junk"]:
-                K.save(torch.tensor(rows, dtype=torch.float32), os.path.join(dd, name))
+                self._save(case, "feat", torch.tensor(rows, dtype=torch.float32), os.path.join(dd, name))
             out = os.path.join(d, "stats.pt")
             argv = [dd, out] + K.name_args(case["prefix"], case["suffix"]) + ["--num-workers", "0"]
             if not case["dim_last"]:
@@ -1890,6 +1971,21 @@ class C17(PropertyCheck):
             return ["kind=session", "session." + case["relation"]]
         t = ["kind=" + k, "prefix=" + ("default" if case["prefix"] == "" else "set"),
              "suffix=" + ("default" if case["suffix"] == ".pt" else ("empty" if case["suffix"] == "" else "set"))]
+        if case.get("dtypes"):
+            role = {"alidir": "ali", "refdir": "ref", "moments": case.get("which"), "mvn": "feat"}.get(k)
+            for r in ([role] if role else ["feat", "ali", "ref"]):
+                t.append(f"{k}.stored_{r}={case['dtypes'][r]}")
+            if k == "refdir" and case.get("use_feat"):
+                t.append(f"refdir.stored_feat={case['dtypes']['feat']}")
+        if k in ("alidir", "moments") and case.get("which", "ali") == "ali":
+            T = max([len(f[1]) for f in case["files"]] or [0])
+            t.append(f"{k}.max_frames=" + ("<=8" if T <= 8 else "128..255" if T < 256 else ">=256" if T >= 256 else "9..127"))
+        if k == "refdir":
+            T = max([max([x[2] for x in f[1] if len(x) > 2] or [0]) for f in case["files"]] or [0])
+            t.append("refdir.max_frames=" + ("<=127" if T <= 127 else "128..255" if T < 256 else ">=256"))
+        if k == "datadir":
+            T = max([f[1] for f in case["feat"]] or [0])
+            t.append("datadir.max_frames=" + ("<=127" if T <= 127 else "128..255" if T < 256 else ">=256"))
         if k == "er":
             t += [f"er.batch={case['batch']}", f"er.per_utt={case['per_utt']}", f"er.distances={case['distances']}",
                   "er.costs=" + ("unit" if not case["costs"] else "other")]
